@@ -51,6 +51,10 @@ pub fn generate_c17(r: &mut Rng, tier: &str, emit: &mut dyn FnMut(String)) {
             emit(gen_address_life(r));
             continue;
         }
+        if i % 8 == 6 {
+            emit(crate::c13::gen_late_timeout(r, "C17"));
+            continue;
+        }
         if i % 4 == 3 {
             let mut k = Knobs::base("C17");
             k.responders = 1 + r.below(2);
@@ -157,6 +161,10 @@ pub fn generate_c20(r: &mut Rng, tier: &str, emit: &mut dyn FnMut(String)) {
     for i in 0..n {
         if i % 4 == 3 {
             emit(gen_leftovers(r));
+            continue;
+        }
+        if i % 8 == 6 {
+            emit(crate::c13::gen_late_timeout(r, "C20"));
             continue;
         }
         // long tails: every TTL of the scripted records (<= 4500 s) has passed at the end
